@@ -9,6 +9,7 @@ Oracles (none of them depends on timing: any instant is a legal stop):
   * after a second run drained the channel: every published body is in the files (at least once);
   * no file in the output dir was lost between the first and the second run.
 """
+import collections
 import gzip
 import io
 import json
@@ -38,20 +39,58 @@ def http(url, data=None, timeout=5):
         return r.read()
 
 
-def decode_members(raw):
-    """payload of the complete gzip members of a file (a truncated trailing member contributes nothing)"""
+def decode_strict(raw):
+    """gzip file → (payload of the complete members, status). status: "ok" = complete members and nothing else;
+    "torn" = the file ends inside a member (what a kill / os.Exit leaves of the open member; contributes nothing);
+    "corrupt" = garbage where a member has to start, broken deflate stream or checksum (audit C29: the old decoder
+    silently stopped there)"""
     out = b""
     while raw:
+        if not b"\x1f\x8b\x08".startswith(raw[:3]):   # a member starts with 1f 8b 08; a shorter tail must be a prefix of it
+            return out, "corrupt"
         d = zlib.decompressobj(16 + zlib.MAX_WBITS)
         try:
             part = d.decompress(raw)
         except zlib.error:
-            return out
+            return out, "corrupt"
         if not d.eof:
-            return out
+            return out, "torn"
         out += part
         raw = d.unused_data
-    return out
+    return out, "ok"
+
+
+def decoder_selftest():
+    """pins the three answers of decode_strict on crafted files; returns the list of wrong answers"""
+    m1, m2 = gzip.compress(b"m0|a\nm1|b\n"), gzip.compress(b"m2|c\n")
+    full, bad = m1 + m2, []
+    for n in range(len(full) + 1):
+        want = ("ok" if n in (0, len(m1), len(full)) else "torn", 0 if n < len(m1) else (15 if n == len(full) else 10))
+        got = decode_strict(full[:n])
+        if (got[1], len(got[0])) != want:
+            bad.append("prefix %d: %s/%d want %s/%d" % (n, got[1], len(got[0]), want[0], want[1]))
+    for tail in (b"x", b"# closed\n", b"\x00", b"\x1f\x8b\x07"):
+        got = decode_strict(full + tail)
+        if (got[1], len(got[0])) != ("corrupt", 15):
+            bad.append("garbage %r: %s/%d" % (tail, got[1], len(got[0])))
+    flipped = bytearray(full)
+    flipped[len(m1) - 8] ^= 0xFF
+    if decode_strict(bytes(flipped)) != (b"", "corrupt"):
+        bad.append("flipped checksum accepted")
+    return bad
+
+
+def decode_members(raw):
+    return decode_strict(raw)[0]
+
+
+def gz_status(root):
+    res = {}
+    for base, _, files in os.walk(root):
+        for f in files:
+            p = os.path.join(base, f)
+            res[os.path.relpath(p, root)] = decode_strict(open(p, "rb").read())[1]
+    return res
 
 
 def tree(root, gz):
@@ -59,9 +98,40 @@ def tree(root, gz):
     for base, _, files in os.walk(root):
         for f in files:
             p = os.path.join(base, f)
+            if os.path.relpath(p, root).split(os.sep)[0] not in ("o", "w"):
+                continue
             raw = open(p, "rb").read()
             res[os.path.relpath(p, root)] = decode_members(raw) if gz else raw
     return res
+
+
+def whole_lines(files):
+    """multiset of the newline-terminated lines of all files, counted per file: an unterminated tail of a file is
+    not a line and is not completed by the next file (audit C30: the old `b"\\n".join(files)` did both)"""
+    c = collections.Counter()
+    for v in files.values():
+        for ln in v.split(b"\n")[:-1]:
+            c[ln] += 1
+    return c
+
+
+def glued_to_torn_tail(body, before, after):
+    """`body` owns no line of `after`; is it glued to the unterminated tail a killed first run left in a file that
+    the second run re-opened with O_APPEND (finding torn-tail-append)? Returns the file name or None."""
+    for name, old in before.items():
+        if not old or old.endswith(b"\n"):
+            continue
+        # the re-opened file keeps its name, or - work-dir mode - has been moved to the output dir (possibly under a
+        # bumped revision) by the second run's Close(): look for the first run's bytes as a prefix under any name
+        cands = [(name, after[name])] if name in after else []
+        cands += [(k, v) for k, v in sorted(after.items()) if k != name and v.startswith(old)]
+        for k, new in cands:
+            if not new.startswith(old):
+                continue
+            end = new.find(b"\n", len(old))
+            if end >= 0 and new[len(old):end] == body:
+                return k
+    return None
 
 
 def owed(http_port):
@@ -102,17 +172,24 @@ def unescape(s):
 
 def parse_trace(path, dirs, gz):
     """strace log of the real binary → per-message events for `drv_e8 trm`:
-       m:<file>:<n>  the record of message n was written to file <file>   (plain output: the write(2) whose
-                     data is the body; gzip output: not visible — the *receipt* of message n counts as a write
-                     to pseudo-file 0 and every fsync of a data file as an fsync of 0: a necessary condition)
-       s:<file>      fsync;   f:<n>  `FIN <id>` written to the nsqd socket.
+       m:<file>:<n>  the record of message n was written to file <file>. Plain output: the write(2) whose data is
+                     the body. gzip output (audit C30.5 — it used to be "receipt of the message", which made the checker
+                     accept nearly anything): the bytes of every write(2) to a data file are re-assembled per file and
+                     decoded; the event is emitted at the write(2) that *completes the gzip member* (the one carrying
+                     its trailer) whose payload holds the body as a whole line. So FIN n is accepted only after the
+                     member with n's record was closed, reached the file, and the file was fsynced afterwards.
+       s:<file>      fsync of that file;   f:<n>  `FIN <id>` written to the nsqd socket.
     Message ids come from the MESSAGE frames read from the socket (id → body)."""
     fds, names, ev, pend = {}, {}, [], {}
     sock = None
     inbuf = b""
     body_ids = {}     # body -> [message numbers]
     idnum = {}        # nsq message id -> number
+    num_body = {}     # number -> body
+    fin_bodies = collections.Counter()   # body -> number of FIN commands written for it
     nfin = 0
+    gzbuf = {}        # gzip: file -> bytes written so far that are not yet part of a complete member
+    stats = {"gz_members": 0, "gz_corrupt": 0, "record_writes": 0}
     for raw in open(path, errors="replace"):
         m = re.match(r"^(\d+)\s+(.*)$", raw.rstrip("\n"))
         if not m:
@@ -147,10 +224,34 @@ def parse_trace(path, dirs, gz):
                     if not gz and data in body_ids:
                         for k in body_ids[data]:
                             ev.append("m:%d:%d" % (fds[fd], k))
+                            stats["record_writes"] += 1
+                    elif gz:
+                        fno = fds[fd]
+                        buf = gzbuf.get(fno, b"") + data
+                        while buf:
+                            d = zlib.decompressobj(16 + zlib.MAX_WBITS)
+                            try:
+                                part = d.decompress(buf)
+                            except zlib.error:
+                                stats["gz_corrupt"] += 1
+                                buf = b""
+                                break
+                            if not d.eof:
+                                break
+                            stats["gz_members"] += 1
+                            for ln in part.split(b"\n")[:-1]:
+                                for k in sorted(set(body_ids.get(ln, []))):
+                                    ev.append("m:%d:%d" % (fno, k))
+                                    stats["record_writes"] += 1
+                            buf = d.unused_data
+                        gzbuf[fno] = buf
                 elif fd == sock:
                     for mf in re.finditer(rb"FIN ([0-9a-f]{16})\n", data):
                         nfin += 1
-                        ev.append("f:%d" % idnum.setdefault(mf.group(1), len(idnum) + 1))
+                        k = idnum.setdefault(mf.group(1), len(idnum) + 1)
+                        ev.append("f:%d" % k)
+                        if k in num_body:
+                            fin_bodies[num_body[k]] += 1
             elif fd == sock:
                 inbuf += data
                 while len(inbuf) >= 8:
@@ -163,13 +264,12 @@ def parse_trace(path, dirs, gz):
                     if ftype == 2 and len(frame) >= 26:
                         k = idnum.setdefault(frame[10:26], len(idnum) + 1)
                         body_ids.setdefault(frame[26:], []).append(k)
-                        if gz:
-                            ev.append("m:0:%d" % k)
+                        num_body[k] = frame[26:]
             continue
         mo = re.match(r"(fsync|fdatasync)\((\d+)\s*\)\s+= 0", l)
         if mo and int(mo.group(2)) in fds:
-            ev.append("s:%d" % (0 if gz else fds[int(mo.group(2))]))
-    return ev, nfin
+            ev.append("s:%d" % fds[int(mo.group(2))])
+    return ev, nfin, fin_bodies, stats
 
 
 def run(ctx, rounds):
@@ -181,7 +281,7 @@ def run(ctx, rounds):
         if rc != 0:
             ctx.log("e2e: go build %s failed:\n%s" % (app, out[-1500:]))
             return ["e2e build of " + app]
-    broken = []
+    broken = ["e2e strict gzip decoder self-test: " + b for b in decoder_selftest()]
     summary = []
     for rnd in range(rounds):
         root = os.path.join(ctx.work, "e2e_%d" % rnd)
@@ -251,16 +351,42 @@ def run(ctx, rounds):
             time.sleep(0.3)
             still, _ = owed(hp)
             files = tree(root, gz)
-            blob = b"\n" + b"\n".join(files.values())
-            present = sum(1 for b in bodies if (b + b"\n") in blob)   # bodies carry a unique tag
-            tr, nfin = parse_trace(strace_log, [os.path.join(root, "o"), os.path.join(root, "w")], gz)
+            lines = whole_lines(files)
+            present = sum(1 for b in bodies if lines[b] > 0)   # bodies carry a unique tag and no newline
+            tr, nfin, fin_bodies, tstats = parse_trace(strace_log, [os.path.join(root, "o"), os.path.join(root, "w")], gz)
             rc, ans = ctx.driver("e8", stdin="trm " + " ".join(tr) + "\n")
             ctx.evaluations += 1
             rec = {"round": rnd, "stop": stop, "gzip": gz, "workdir": workdir, "published": len(bodies), "owed": still,
                    "present": present, "fin_writes": nfin, "trace_events": len(tr), "checker": ans.strip(), "hups": hups}
+            rec.update(tstats)
+            if gz:
+                # strict decodability (audit C29): nothing corrupt; at most one file ends in an unfinished member (the
+                # one that was open when the process died); none after a clean exit
+                gst = gz_status(root)
+                gst = {k: v for k, v in gst.items() if k.split(os.sep)[0] in ("o", "w")}
+                rec["gz_files"] = dict(collections.Counter(gst.values()))
+                ntorn = sum(1 for v in gst.values() if v == "torn")
+                bad = sorted(k for k, v in gst.items() if v == "corrupt")
+                if bad or tstats["gz_corrupt"]:
+                    ctx.violation("tofile-e2e-gzip-corrupt", "gzip output of the real nsq_to_file does not decompress to its end: %s "
+                                  "(corrupt streams in the write trace: %d; %s)" % (bad, tstats["gz_corrupt"], json.dumps(rec)),
+                                  json.dumps({"opts": opts, "stop": stop, "rec": rec}) + "\n")
+                if ntorn > 1 or (ntorn and tool.returncode == 0 and stop != "kill"):
+                    ctx.violation("tofile-e2e-gzip-torn", "%d gzip output file(s) end in an unfinished member after %s (exit %s) (%s)"
+                                  % (ntorn, stop, tool.returncode, json.dumps(rec)),
+                                  json.dumps({"opts": opts, "stop": stop, "rec": rec}) + "\n")
             if ans.strip() != "ok":
                 ctx.violation("tofile-e2e-syscall", "real nsq_to_file wrote a FIN to nsqd while a written output file was not yet "
                               "fsynced (%s)" % json.dumps(rec), json.dumps({"opts": opts, "stop": stop}) + "\n" + " ".join(tr) + "\n")
+            # every FIN command the tool wrote is backed by a whole line of its own (multiset: a body finished
+            # twice — redelivered after a timeout — needs two lines)
+            unbacked = [b for b, k in fin_bodies.items() if lines[b] < k]
+            rec["fin_bodies"] = sum(fin_bodies.values())
+            rec["fin_unbacked"] = len(unbacked)
+            if unbacked:
+                ctx.violation("tofile-e2e-fin-without-line", "real nsq_to_file sent FIN for %d message(s) that own no whole line of any "
+                              "(decodable) file after the stop, e.g. %r (%s)" % (len(unbacked), unbacked[0][:60], json.dumps(rec)),
+                              json.dumps({"opts": opts, "stop": stop, "rec": rec}) + "\n")
             if present < len(bodies) - still:
                 ctx.violation("tofile-e2e-lost", "after %s the channel no longer owes %d of %d messages but only %d are in the files (%s)"
                               % (stop, len(bodies) - still, len(bodies), present, json.dumps(rec)),
@@ -279,8 +405,18 @@ def run(ctx, rounds):
             except subprocess.TimeoutExpired:
                 tool.kill()
             files2 = tree(root, gz)
-            blob2 = b"\n" + b"\n".join(files2.values())
-            missing = [b for b in bodies if (b + b"\n") not in blob2]
+            lines2 = whole_lines(files2)
+            missing = [b for b in bodies if lines2[b] == 0]
+            # finding torn-tail-append (own leg: harness/e8/tofile_lines_test.go): the killed first run left "bodyA" without
+            # its newline, the second run appended "bodyB\n" to the same file; B is acknowledged but owns no line
+            torn = [(b, glued_to_torn_tail(b, files, files2)) for b in missing]
+            rec["torn_tail_append"] = sum(1 for _, f in torn if f)
+            for b, f in torn:
+                if f:
+                    ctx.violation("torn-tail-append", "after SIGKILL the file %s ended in a record without its newline; the next run "
+                                  "appended %r right behind it and acknowledged it (the message owns no line)" % (f, b[:60]),
+                                  json.dumps({"opts": opts, "rec": rec}) + "\n")
+            missing = [b for b, f in torn if not f]
             rec["drained_missing"] = len(missing)
             rec["owed_after_drain"] = still2
             if still2 == 0 and missing:
